@@ -377,6 +377,30 @@ def check_message_reset(repo: Repo, rep: Report) -> None:
         ok, w = cfg.must_pass(s0, via, {cfg.exit.id})
         if not ok:
             break
+    # the same for whatever else the provider accumulates while a message is being received (a byte / fragment
+    # counter next to the message): it belongs to the message and must be reset with it
+    accs = {}
+    for x in walk_no_nested(fn):
+        if isinstance(x, ast.AugAssign) and isinstance(x.target, ast.Attribute) and norm(x.target.value) == "self":
+            accs.setdefault(x.target.attr, x)
+        if isinstance(x, ast.Assign) and isinstance(x.targets[0], ast.Attribute) and norm(x.targets[0].value) == "self" and isinstance(x.value, ast.BinOp) and norm(x.value.left) == norm(x.targets[0]):
+            accs.setdefault(x.targets[0].attr, x)
+    for attr, site in sorted(accs.items()):
+        def via_a(n, attr=attr):
+            if n.kind != "stmt":
+                return False
+            if isinstance(n.ast, ast.Assign) and norm(n.ast.targets[0]) == f"self.{attr}" and isinstance(n.ast.value, ast.Constant):
+                return True
+            return any(norm(c.func).endswith("event_queue.put") and c.args and norm(c.args[0]) == "'Evt19'" for c in calls_at(n))
+
+        ok_a, w_a = True, []
+        for s0 in start:
+            if via_a(s0):
+                continue
+            ok_a, w_a = cfg.must_pass(s0, via_a, {cfg.exit.id})
+            if not ok_a:
+                break
+        rep.check(ok_a, "message-reset", fq, site, f"`self.{attr}` is accumulated while a message is received but not reset when the message is complete: it keeps growing over the whole association, so a limit or test written for one message eventually fires on an ordinary, conformant message (the association is aborted after enough traffic)", mod=dm, node=site, path=[f"L{x.line}" for x in w_a if x.ast is not None][-10:])
     rep.check(ok, "message-reset", fq, "complete message ... exit without `self.message = None`", "a path leaves receive_primitive after a message was completed without dropping the message object: the next message's fragments are appended to the finished one (its command set then decodes with stale elements, or not at all)", mod=dm, node=tests[0].ast, path=[f"L{x.line}" for x in w if x.ast is not None][-10:])
 
 
